@@ -250,7 +250,9 @@ func workerMain(p *Prop, tier string, seed uint64, shard, nshards, from, only in
 			if idx != only {
 				continue
 			}
-		} else if idx%nshards != shard {
+		} else if int(mix64(uint64(idx))%uint64(nshards)) != shard {
+			// cases are dealt to workers by a hash of the index, so that choices
+			// derived from idx modulo something are not correlated with the worker
 			continue
 		}
 		if c.journal != nil {
